@@ -40,6 +40,21 @@ type linIn struct {
 	Tag     string
 	Digest  string
 	Subject string
+	Filter  string // refs: artifactType filter
+}
+
+// linAT: artifactType of every manifest of the plan (static; what a filtered listing selects by)
+var linAT = map[string]string{}
+
+func linWantRefs(subjOf map[string]string, in linIn) []string {
+	var want []string
+	for d, sub := range subjOf {
+		if sub == in.Subject && (in.Filter == "" || linAT[d] == in.Filter) {
+			want = append(want, d)
+		}
+	}
+	sort.Strings(want)
+	return want
 }
 
 type linOut struct {
@@ -174,13 +189,7 @@ func linStep(state, input, output interface{}) (bool, interface{}) {
 		want := sortedKeys(s.Tags)
 		return out.Code == 200 && eqStrings(want, out.List), s
 	case "refs":
-		var want []string
-		for d, sub := range s.Mans {
-			if sub == in.Subject {
-				want = append(want, d)
-			}
-		}
-		sort.Strings(want)
+		want := linWantRefs(s.Mans, in)
 		got := append([]string(nil), out.List...)
 		sort.Strings(got)
 		return out.Code == 200 && eqStrings(want, got), s
@@ -235,13 +244,7 @@ var relModel = porcupine.Model{
 			delete(n.Refs, in.Digest)
 			return true, n
 		case "refs":
-			var want []string
-			for d, sub := range s.Refs {
-				if sub == in.Subject {
-					want = append(want, d)
-				}
-			}
-			sort.Strings(want)
+			want := linWantRefs(s.Refs, in)
 			got := append([]string(nil), out.List...)
 			sort.Strings(got)
 			return out.Code == 200 && eqStrings(want, got), s
@@ -284,7 +287,7 @@ var linModel = porcupine.Model{
 	},
 	DescribeOperation: func(input, output interface{}) string {
 		in, out := input.(linIn), output.(linOut)
-		return fmt.Sprintf("%s(%s %s %.19s subj=%.19s) -> %d %.19s %v", in.Kind, in.Repo, in.Tag, in.Digest, in.Subject, out.Code, out.Digest, shortList(out.List))
+		return fmt.Sprintf("%s(%s %s %.19s subj=%.19s %s) -> %d %.19s %v", in.Kind, in.Repo, in.Tag, in.Digest, in.Subject, in.Filter, out.Code, out.Digest, shortList(out.List))
 	},
 }
 
@@ -422,10 +425,14 @@ func (c *concRun) cTags(client int, repo string) {
 	c.record(client, linIn{Kind: "tags", Repo: repo}, call, linOut{Code: code, List: tags})
 }
 
-func (c *concRun) cRefs(client int, repo, subject string) {
+func (c *concRun) cRefs(client int, repo, subject, filter string) {
 	w := c.w
 	call := c.stamp()
-	r, descs, ok := w.refPage(repo, subject, "")
+	q := ""
+	if filter != "" {
+		q = "artifactType=" + url.QueryEscape(filter)
+	}
+	r, descs, ok := w.refPage(repo, subject, q)
 	code := r.Code
 	if !ok && code == 200 {
 		code = 599
@@ -434,7 +441,7 @@ func (c *concRun) cRefs(client int, repo, subject string) {
 	for _, d := range descs {
 		l = append(l, d.Digest)
 	}
-	c.record(client, linIn{Kind: "refs", Repo: repo, Subject: subject}, call, linOut{Code: code, List: l})
+	c.record(client, linIn{Kind: "refs", Repo: repo, Subject: subject, Filter: filter}, call, linOut{Code: code, List: l})
 }
 
 // cUpload pushes a blob through a session, in several requests and Write calls (interference for C11, workload for C12).
@@ -614,7 +621,7 @@ func (c *concRun) runClient(ci int, ops []Op) {
 		case "tags":
 			c.cTags(ci, repo)
 		case "refs":
-			c.cRefs(ci, repo, o.digest(""))
+			c.cRefs(ci, repo, o.digest(""), op.Filter)
 		case "bget":
 			c.cBlobRead(ci, repo, o)
 		case "blob":
@@ -700,6 +707,12 @@ func engineConc(x *X) {
 			in := linIn{Kind: "putman", Repo: repo, Tag: t, Digest: mr.tags[t], Subject: mr.mans[mr.tags[t]].view.subject}
 			call := c.stamp()
 			c.record(-1, in, call, linOut{Code: 201})
+		}
+	}
+	linAT = map[string]string{}
+	for _, o := range p.Objs {
+		if o.isManifest() {
+			linAT[o.digest("")] = o.AT
 		}
 	}
 	c.stable = map[string]string{}
@@ -1133,7 +1146,7 @@ func (cg *concGen) clientOps(n int, mix string) []Op {
 			}
 			ops = append(ops, Op{K: "tags", Repo: repo})
 		case 11, 12:
-			ops = append(ops, Op{K: "refs", Repo: repo, Obj: cg.subject})
+			ops = append(ops, Op{K: "refs", Repo: repo, Obj: cg.subject, Filter: g.r.str("", "", "", "application/vnd.example.sig", "application/vnd.example.sbom")})
 		default:
 			ops = append(ops, Op{K: "blob", Repo: repo, Obj: cg.blobs[g.r.intn(len(cg.blobs))], Chunks: []int{g.r.between(1, 200), g.r.between(0, 200)}, B: g.r.pick(0, 0, 7, 50)})
 		}
